@@ -526,6 +526,43 @@ mod inst {
     wrappers!(c12, c12_cells);
     wrappers!(c13, c13_cells);
 
+    /// Conversions between the vector types of one back end (`Into`): they exist only on the concrete x86
+    /// types (where-clauses of the Machine impls), so they are instantiated per concrete machine here.
+    /// A conversion is a reinterpretation: the little-endian byte image must not change.
+    macro_rules! conv_cells {
+        ($M:ty, $be:expr, $cells:ident, $c:ident) => {{
+            let m = unsafe { <$M>::instance() };
+            let cell = |op: &str| format!("C13:{}:convert:{}", $be, op);
+            let a = &$c.a.0;
+            {
+                let x: <$M as Machine>::u128x1 = m.unpack(st128(&a[..16]));
+                $cells.check(&cell("u128x1->u32x4"), || { let y: <$M as Machine>::u32x4 = x.into(); by128(y.into()) }, a[..16].to_vec());
+                $cells.check(&cell("u128x1->u64x2"), || { let y: <$M as Machine>::u64x2 = x.into(); by128(y.into()) }, a[..16].to_vec());
+            }
+            {
+                let x: <$M as Machine>::u128x2 = m.unpack(st256(&a[..32]));
+                $cells.check(&cell("u128x2->u32x4x2"), || { let y: <$M as Machine>::u32x4x2 = x.into(); by256(y.into()) }, a[..32].to_vec());
+                $cells.check(&cell("u128x2->u64x2x2"), || { let y: <$M as Machine>::u64x2x2 = x.into(); by256(y.into()) }, a[..32].to_vec());
+                $cells.check(&cell("u128x2->u64x4"), || { let y: <$M as Machine>::u64x4 = x.into(); by256(y.into()) }, a[..32].to_vec());
+            }
+            {
+                let x: <$M as Machine>::u128x4 = m.unpack(st512(&a[..64]));
+                $cells.check(&cell("u128x4->u32x4x4"), || { let y: <$M as Machine>::u32x4x4 = x.into(); by512(y.into()) }, a[..64].to_vec());
+                $cells.check(&cell("u128x4->u64x2x4"), || { let y: <$M as Machine>::u64x2x4 = x.into(); by512(y.into()) }, a[..64].to_vec());
+            }
+        }};
+    }
+
+    pub fn conversions(level: &str, cells: &mut Cells, c: &VecCase) {
+        match level {
+            "sse2" => conv_cells!(SSE2, "sse2", cells, c),
+            "ssse3" => conv_cells!(SSSE3, "ssse3", cells, c),
+            "sse41" => conv_cells!(SSE41, "sse41", cells, c),
+            "avx" => conv_cells!(AVX, "avx", cells, c),
+            _ => conv_cells!(AVX2, "avx2", cells, c),
+        }
+    }
+
     pub fn run(prop: &str, level: &str, cells: &mut Cells, c: &VecCase) -> Result<(), String> {
         let ok = match level {
             "sse2" => true,
@@ -552,6 +589,9 @@ mod inst {
                 ("C13", "avx2") => c13::avx2(cells, c),
                 _ => return Err("bad prop".into()),
             }
+        }
+        if prop == "C13" {
+            conversions(level, cells, c);
         }
         Ok(())
     }
